@@ -927,6 +927,10 @@ impl BreadthFirstSearch {
 
         queue.push_back((root_goal as *mut Goal, 0));
 
+        // Rules are executed speculatively while searching: record the changes so
+        // that a failed proof can hand the facts back exactly as it received them.
+        facts.begin_undo_frame();
+
         while let Some((goal_ptr, depth)) = queue.pop_front() {
             // Safety: We maintain ownership properly
             let goal = unsafe { &mut *goal_ptr };
@@ -979,6 +983,12 @@ impl BreadthFirstSearch {
         }
 
         let success = root_goal.is_proven();
+
+        if success {
+            facts.commit_undo_frame();
+        } else {
+            facts.rollback_undo_frame();
+        }
 
         SearchResult {
             success,
